@@ -920,7 +920,6 @@ def _rfind(window, sub, a, lo, n):
                  z3.IntVal(-1))
 
 
-S.PENDING_AXIOMS = []
 
 
 # ------------------------------------------------------- sequences ----
